@@ -1,6 +1,6 @@
 CONSTANTS
   MinKeys = 0
-  MaxKeys = 2
+  MaxKeys = 1
   NI = 3
   MaxRF = 2
   Shape = "any"
@@ -10,7 +10,7 @@ CONSTANTS
   AllowCancel = TRUE
   EarlyExits = FALSE
   MaxConc = 3
-  Spawn = "go"
+  Spawn = "deferred"
   Record = FALSE
 SPECIFICATION FairSpec
 INVARIANTS TypeOK SingleSend ReturnsOnce SuccessMeansQuorum ErrorMeansNoQuorum ErrorIsReal ChannelErrorIsReal
